@@ -542,7 +542,10 @@ func (k *Kernel) addProposedHeader(ctx context.Context, s *kState, ph tmconsensu
 		for blockHash, laterSigs := range commitProofs {
 			target := backfillVRV.PrecommitProofs[blockHash]
 			if target == nil {
-				panic("TODO: backfill unknown block precommit")
+				// We have no precommits for this block in the committing view
+				// (or no committing view at all, at the initial height),
+				// so there is nothing to merge these into.
+				continue
 			}
 
 			laterSparseCommit := gcrypto.SparseSignatureProof{
@@ -1573,10 +1576,9 @@ func (k *Kernel) sendPHCheckResponse(ctx context.Context, s *kState, req PHCheck
 			// but it's not impossible that we've received it particularly late.
 			k.setPHCheckStatus(s, req, &resp, s.Committing, ViewIDCommitting)
 		} else {
-			panic(fmt.Errorf(
-				"TODO: handle proposed block with round (%d) beyond committing round (%d)",
-				pbRound, committingRound,
-			))
+			// The committing height was already decided in the committing round,
+			// so a proposed header for a later round at that height is of no use.
+			resp.Status = PHCheckRoundTooOld
 		}
 	} else if pbHeight == votingHeight {
 		if pbRound < votingRound {
@@ -1586,10 +1588,8 @@ func (k *Kernel) sendPHCheckResponse(ctx context.Context, s *kState, req PHCheck
 		} else if pbRound == votingRound+1 {
 			k.setPHCheckStatus(s, req, &resp, s.NextRound, ViewIDNextRound)
 		} else {
-			panic(fmt.Errorf(
-				"TODO: handle proposed block with round (%d) beyond voting round (%d)",
-				pbRound, votingRound,
-			))
+			// Beyond the next round, which is the furthest round we track.
+			resp.Status = PHCheckRoundTooFarInFuture
 		}
 	} else if pbHeight == votingHeight+1 {
 		// Special case of the proposed block being for the next height.
